@@ -46,7 +46,7 @@ def enc_type(t):
         out = ['tuple']
         for x in t:
             h = head(x)
-            out.append(h if h in L.PRIMS else '?')
+            out.append('any' if x is typing.Any else h if h in L.PRIMS else '?')
         return out
     h = head(t)
     if h is not None:
@@ -228,11 +228,49 @@ def attach(p, fdef):
     return m, fmap
 
 
-def export_claims(malt_mods, tables, tree, p, src):
+class NodeOrder:
+    """Pins the iteration order of sets of CFG nodes.
+
+    cfg.Node objects hash by address, so the order in which GraphVisitor walks the successors of a branch - and
+    with it which annotations an early, incomplete visit leaves behind - varies from run to run.  Every order is
+    a legal behaviour of the real code; the harness fixes two of them (hash = creation number, ascending or
+    descending) so that a run is reproducible, and checks the claims of both.
+    """
+    installed = None
+
+    def __init__(self, cfg):
+        self.seq = 0
+        self.mode = 0
+        order = self
+        orig = cfg.Node.__init__
+
+        def init(node, *a, **k):
+            order.seq += 1
+            node._c19_seq = order.seq
+            orig(node, *a, **k)
+
+        def nhash(node):
+            return node._c19_seq if order.mode == 0 else 1000000 - node._c19_seq
+        cfg.Node.__init__ = init
+        cfg.Node.__hash__ = nhash
+
+    @classmethod
+    def get(cls, cfg):
+        if cls.installed is None or cls.installed[0] is not cfg:
+            cls.installed = (cfg, cls(cfg))
+        return cls.installed[1]
+
+    def start(self, mode):
+        self.seq = 0
+        self.mode = mode
+
+
+def export_claims(malt_mods, tables, tree, p, src, order=0):
     """Run cfg.build, qual_names, activity, reaching_definitions, reaching_fndefs, type_inference on `src`
     and return the claims record of program p: types per expression occurrence, closure types per function."""
     (cfg, qual_names, anno, transformer, naming, activity, reaching_definitions, reaching_fndefs,
      type_inference) = malt_mods
+    NodeOrder.get(cfg).start(order)
     node = ast.parse(src).body[0]
     info = transformer.EntityInfo(name='f', source_code=src, source_file=None, future_features=(), namespace={})
     ctx = transformer.Context(info, naming.Namer({}), None)
